@@ -13,6 +13,7 @@
    ANY mixture of old and new bitfield pages yields the exact bitfield and the exact contiguous length.
    Partial: that the disk really holds such a mixture after a crash (flush schedule) and that has() is false
    beyond the length (no append ever sets a bit >= length) are established by the correspondence runs. *)
+From HC Require Import SoundCoreLib SoundCore ReplicaDisk1.
 From HC Require Import CrashClear1.
 From HC Require Import Base Codec Crypto Storage Bitfield Oplog Merkle SrcConsts ConstTie.
 From HC Require Import Base NMap Storage Bitfield Core BitfieldFacts ContigBridge.
@@ -124,6 +125,17 @@ Theorem C08_replay_over_any_bit_mixture_with_clears :
          exact_contig b' (hd_contig h') /\ b' = fold_left bf_apply (updates_of l) (bf_open f).
 Proof. exact replay_bitfield_Y. Qed.
 
+Theorem C08_replica_has_exact :
+  forall (cr : crypto) (bs : list bytes) (c : core) (d : disk) (H : N -> bool) (i : N),
+         RDInv cr bs c d H -> core_has c i = H i.
+Proof. exact RD_has. Qed.
+
+Theorem C08_replica_contiguous_exact :
+  forall (cr : crypto) (bs : list bytes) (c : core) (d : disk) (H : N -> bool),
+         RDInv cr bs c d H ->
+         (forall i : N, i < i_contiguous (core_info c) -> H i = true) /\ H (i_contiguous (core_info c)) = false.
+Proof. exact RD_contiguous. Qed.
+
 Print Assumptions C08_has_after_update.
 Print Assumptions C08_has_after_set_range.
 Print Assumptions C08_changed_pages_are_dirty.
@@ -139,3 +151,5 @@ Print Assumptions C08_has_exact_in_every_state.
 Print Assumptions C08_replay_over_crash_store_exact.
 Print Assumptions C08_exact_after_crash_recovery.
 Print Assumptions C08_replay_over_any_bit_mixture_with_clears.
+Print Assumptions C08_replica_has_exact.
+Print Assumptions C08_replica_contiguous_exact.
